@@ -33,6 +33,8 @@ BINNING = C03.BINNING
 class IdxPop:
     """A population that reports the index it is subscripted with (no forking)."""
 
+    pysym_pytype = list     # passes isinstance(., list) / (list, tuple) tests in the analysed code
+
     def __init__(self, n):
         self.n = n
 
@@ -42,6 +44,40 @@ class IdxPop:
     def pysym_getitem(self, ctx, idx):
         ctx.recorded.append(("index", idx))
         return ("element", idx)
+
+
+def draws(p):
+    """does this path consume a random draw?"""
+    return any(n.startswith("stub: random.random()") for n in p.notes)
+
+
+def ob_id_given(timeout_ms):
+    """(g): with an id - any str, the empty one included - nothing is drawn: the result is a function of the hash position"""
+    tally = Tally()
+    out = base_out("id-given-no-draw")
+    configs = [("unweighted", ([0, 1, 2],), {}), ("weights", ([0, 1, 2], [1, 2, 3]), {}),
+               ("cum_weights", ([0, 1, 2],), {"cum_weights": [1, 3, 6]})]
+    for name, a, kw in configs:
+        run = C03.run_choice(*a, **kw)
+        absorb(out, run)
+        for p in run.paths:
+            if unsup(out, p, tally, timeout_ms):
+                continue
+            if not draws(p):
+                if out["reach"] == 0 and isinstance(p.outcome, Return):
+                    r, m = common.check(tally, p.conds, timeout_ms)
+                    out["reach"] += 1 if r == "sat" else 0
+                continue
+            r, m = common.check(tally, p.conds, timeout_ms, label="C16(g) random draw although an id is given (%s)" % name,
+                                keep_sample=True)
+            note_unknown(out, r)
+            if r == "sat":
+                uid = harness.model_value(m, SStr(z3.String("input_id")))
+                out["witnesses"].append({"kind": "choice_repeat", "args": [enc(uid)] + [enc(x) for x in a],
+                                         "kwargs": {k: enc(v) for k, v in kw.items()},
+                                         "why": "with id %r (%s) the result is drawn at random" % (uid, name), "plain": ""})
+    out["tally"] = tally
+    return out
 
 
 def kvar(p):
@@ -62,6 +98,8 @@ def ob_range_unweighted(n, timeout_ms):
     for p in run.paths:
         if unsup(out, p, tally, timeout_ms):
             continue
+        if draws(p):
+            continue        # judged by obligation (g)
         k = kvar(p)
         if isinstance(p.outcome, Raise):
             r, m = common.check(tally, p.conds, timeout_ms, label="C16(a) exception on a valid unweighted call")
@@ -99,7 +137,7 @@ def ob_uniform_equiv(n, timeout_ms):
     rb = C03.run_choice(list(range(n)), [1] * n)
     absorb(out, ra)
     absorb(out, rb)
-    pas = [p for p in ra.paths if isinstance(p.outcome, Return)]
+    pas = [p for p in ra.paths if isinstance(p.outcome, Return) and not draws(p)]
     if not pas:
         out["status"] = "inconclusive"
         out["note"] = "unweighted run has no returning path"
@@ -116,7 +154,7 @@ def ob_uniform_equiv(n, timeout_ms):
         for pb in rb.paths:
             if unsup(out, pb, tally, timeout_ms):
                 continue
-            if not isinstance(pb.outcome, Return):
+            if not isinstance(pb.outcome, Return) or draws(pb):
                 continue
             kb = kvar(pb)
             j = pb.outcome.value
@@ -170,6 +208,8 @@ def ob_cum_equiv(texts, timeout_ms):
         for other, what in ((rb, "cum_weights"), (rc, "tuple arguments")):
             for pb in other.paths:
                 if not (isinstance(pa.outcome, Return) and isinstance(pb.outcome, Return)):
+                    continue
+                if draws(pa) or draws(pb):
                     continue
                 if pa.outcome.value == pb.outcome.value:
                     continue
@@ -494,6 +534,8 @@ def _dispatch(a):
         return ob_mutation(a[1])
     if kind == "random":
         return ob_random(a[1])
+    if kind == "idgiven":
+        return ob_id_given(a[1])
     raise ValueError(kind)
 
 
@@ -501,7 +543,7 @@ def main(tier):
     common.setup_path()
     rep = common.Reporter(PROP)
     timeout_ms = 60000 if tier == "quick" else 600000
-    items = [("errors", timeout_ms), ("mutation", timeout_ms), ("random", timeout_ms)]
+    items = [("errors", timeout_ms), ("mutation", timeout_ms), ("random", timeout_ms), ("idgiven", timeout_ms)]
     ns_range = [1, 2, 3, 10, 64, 2 ** 20 + 1] if tier == "quick" else \
         list(range(1, 65)) + [100, 1000, 65535, 65536, 2 ** 20, 2 ** 20 + 1, 10 ** 6]
     ns_uni = [1, 2, 3, 7] if tier == "quick" else list(range(1, 65))
